@@ -24,7 +24,7 @@ PROP = {
 CLAIM = {
     "engine": "mirrorsim",
     "technique": "stateful property-based testing with injected crash points (rapid histories x store-write index; thorough tier enumerates every write index of each history) against a crash-free reference run",
-    "text": "For generated message histories the mirror is stopped after an individual store write (or after a handled message), restarted on the same stores, the interrupted messages are redelivered and the rest of the history follows. Oracle: restart succeeds; positions are not behind the durably recorded ones; the committed chain is unchanged; every persisted proposal and vote of the resumed rounds is present again and verifies (crypto/ed25519); at the end the committed chain and voting position equal those of the crash-free run of the same messages. The resumed voting view must carry, as its previous-commit proof, an authentic > 2/3 certificate for the committed block below it. Quick adds, besides the drawn stop, one stop strictly between two store writes of one operation. State-machine unit (smsim): generated state-machine histories (as for C02, incl. quiescent restarts) are run once without a stop and then with the machine dying inside one of its own store writes (SaveProposedHeaderAction, SaveFinalization, SetStateMachineHeightRound; quick: a drawn write, thorough: every such write of the history), a new StateMachine is built on the same action/finalization/state-machine stores, its entrance is answered as the mirror would, and the rest of the history follows. Oracle: start-up succeeds; the first entrance is exactly the round the durable state implies ((h+1, 0) once SaveFinalization(h) persisted, whatever round decided h and whether or not the new position had been written), never below the stored position; every later entrance was recorded before it was requested; no finalize request for a height whose finalization is stored, no overwrite attempt, stored finalizations byte-identical afterwards; and when the mirror histories of both runs coincide the machine ends, after redelivery, at the position of the run without the stop. Engine unit (netsim): whole tmengine.Engine instances are stopped and rebuilt on their stores inside generated network schedules (biased to restarts within the initial height, also right after the first commit, on chains whose InitChain overrode the genesis document); oracle: start-up succeeds, mirror position / committed headers / stored finalizations are not behind or different from what was durable before the stop, finalize requests stay gap-free (a repeat only as first request of the new incarnation, same hash), the restarted node proposes headers with the prescribed validator sets, is offered every acceptable stored proposal, and its decided prevote reaches its round store (no loss of participation), plus the C03 agreement and certificate clauses.",
+    "text": "For generated message histories (gossip messages and honest replayed headers) the mirror is stopped after an individual store write (or after a handled message), restarted on the same stores, the interrupted messages are redelivered and the rest of the history follows. Oracle: restart succeeds; positions are not behind the durably recorded ones; the committed chain is unchanged; every persisted proposal and vote of the resumed rounds is present again and verifies (crypto/ed25519); at the end the committed chain and voting position equal those of the crash-free run of the same messages. The resumed voting view must carry, as its previous-commit proof, an authentic > 2/3 certificate for the committed block below it. Quick adds, besides the drawn stop, one stop strictly between two store writes of one operation. State-machine unit (smsim): generated state-machine histories (as for C02, incl. quiescent restarts) are run once without a stop and then with the machine dying inside one of its own store writes (SaveProposedHeaderAction, SaveFinalization, SetStateMachineHeightRound; quick: a drawn write, thorough: every such write of the history), a new StateMachine is built on the same action/finalization/state-machine stores, its entrance is answered as the mirror would, and the rest of the history follows. Oracle: start-up succeeds; the first entrance is exactly the round the durable state implies ((h+1, 0) once SaveFinalization(h) persisted, whatever round decided h and whether or not the new position had been written), never below the stored position; every later entrance was recorded before it was requested; no finalize request for a height whose finalization is stored, no overwrite attempt, stored finalizations byte-identical afterwards; and when the mirror histories of both runs coincide the machine ends, after redelivery, at the position of the run without the stop. Engine unit (netsim): whole tmengine.Engine instances are stopped and rebuilt on their stores inside generated network schedules (biased to restarts within the initial height, also right after the first commit, on chains whose InitChain overrode the genesis document); oracle: start-up succeeds, mirror position / committed headers / stored finalizations are not behind or different from what was durable before the stop, finalize requests stay gap-free (a repeat only as first request of the new incarnation, same hash), the restarted node proposes headers with the prescribed validator sets, is offered every acceptable stored proposal, and its decided prevote reaches its round store (no loss of participation), plus the C03 agreement and certificate clauses.",
     "design_ref": "DESIGN.md section 4 C10, section 3.1",
     "note": "Fault enumeration over store-write indices of generated histories (thorough: all of them per history); finalization stores and the state machine are covered by the smsim / netsim units where present.",
 }
